@@ -1,6 +1,6 @@
 (* C14 — max_time: no step is started once more than T seconds have elapsed.
    Only statements; proofs live in proofs/C14_proofs.v. *)
-Require Import Base StopRun Converter Driver DriverObs DriverFacts StopFacts C14_proofs.
+Require Import Base StopRun Converter Driver DriverObs DriverFacts StopFacts C14_proofs PyPrims PyPrimsQ DriverGen DriverTie.
 
 (* for every optimizer, objective, clock function (any readings, monotone or not), T > 0, n_iter:
    rows = first k such that the reading taken by the check after step k exceeds start + T, else n_iter *)
@@ -16,3 +16,20 @@ Example C14_nonvacuous :
              [mkCall 4 (mkStop (Some 5) None None) false None false] false [] in
   match run_case c with Ok [o] => length (ob_rows o) = 2%nat | _ => False end.
 Proof. vm_compute. reflexivity. Qed.
+
+(* ---------- the definitions GENERATED from /repo's _stop_run.py refine the model the theorem above is about ---------- *)
+Theorem C14_source_time_exceeded_refines : forall clk k start mt,
+  g_time_exceeded clk k start mt = Ok (match mt with Some t => time_exceeded start (clk k) t | None => false end, S k).
+Proof. exact time_exceeded_tie. Qed.
+Print Assumptions C14_source_time_exceeded_refines.
+
+Theorem C14_source_check_refines : forall clk k c pa pr start best sl,
+  (forall e, st_early c = Some e -> rel_wf e /\ early_nonempty e pa pr) ->
+  g_StopRun_check clk k (stop_of c pa pr start best sl) =
+  let k' := if check_reads_clock c then S k else k in
+  match check c start (clk k) best sl with
+  | Ok b => Ok ((stop_of c pa pr start best sl, b), k')
+  | Err e => Err e
+  end.
+Proof. exact check_tie. Qed.
+Print Assumptions C14_source_check_refines.
